@@ -399,6 +399,101 @@ mod real {
             }
             out.insert("tcp_drop_by_bind_address".into(), json!(rows));
         }
+        // C20 for every way of constructing the server: after the drop the listening socket is
+        // gone, a connection attempt is refused and (UNIX) the socket path is removed
+        {
+            let mut rows = Vec::new();
+            let dir = std::env::temp_dir();
+            for (k, how) in ["http_unix", "Server::new(ConfigListenAddr::unix_from_path)", "from_listener(UnixListener::bind)", "http_unix with a relative path"].iter().enumerate() {
+                let path = dir.join(format!("verif-realsock-{}-ctor{}.sock", std::process::id(), k));
+                let _ = std::fs::remove_file(&path);
+                let server = match k {
+                    0 => Server::http_unix(&path),
+                    1 => Server::new(tiny_http::ServerConfig { addr: tiny_http::ConfigListenAddr::unix_from_path(&path), ssl: None }),
+                    2 => std::os::unix::net::UnixListener::bind(&path).map_err(|e| e.into()).and_then(|l| Server::from_listener(l, None)),
+                    _ => {
+                        // relative to the current directory, which is changed to the temp dir
+                        let _ = std::env::set_current_dir(&dir);
+                        Server::http_unix(std::path::Path::new(path.file_name().unwrap()))
+                    }
+                };
+                let server = match server {
+                    Ok(s) => s,
+                    Err(e) => {
+                        rows.push(json!({"constructed_by": how, "constructed": false, "error": e.to_string()}));
+                        continue;
+                    }
+                };
+                let served = match UnixStream::connect(&path) {
+                    Ok(mut c) => {
+                        let _ = c.write_all(b"GET /u HTTP/1.1\r\nHost: t\r\nConnection: close\r\n\r\n");
+                        match server.recv_timeout(Duration::from_secs(10)) {
+                            Ok(Some(rq)) => {
+                                let none = rq.remote_addr().is_none();
+                                let _ = rq.respond(Response::from_string("x"));
+                                none
+                            }
+                            _ => false,
+                        }
+                    }
+                    Err(_) => false,
+                };
+                drop(server);
+                let t0 = Instant::now();
+                let mut removed_after_ms = None;
+                while t0.elapsed() < Duration::from_secs(3) {
+                    if !path.exists() {
+                        removed_after_ms = Some(t0.elapsed().as_millis() as u64);
+                        break;
+                    }
+                    std::thread::sleep(Duration::from_millis(10));
+                }
+                let refused = UnixStream::connect(&path).is_err();
+                let _ = std::fs::remove_file(&path);
+                rows.push(json!({"constructed_by": how, "constructed": true, "served_with_peer_address_none": served, "path_removed_after_ms": removed_after_ms, "connect_refused_after_drop": refused}));
+            }
+            // TCP listeners handed in through from_listener / Server::new
+            for (k, how) in ["from_listener(TcpListener::bind)", "Server::new(ConfigListenAddr::from_socket_addrs)"].iter().enumerate() {
+                let server = match k {
+                    0 => std::net::TcpListener::bind("127.0.0.1:0").map_err(|e| e.into()).and_then(|l| Server::from_listener(l, None)),
+                    _ => tiny_http::ConfigListenAddr::from_socket_addrs("127.0.0.1:0").map_err(|e| e.into()).and_then(|a| Server::new(tiny_http::ServerConfig { addr: a, ssl: None })),
+                };
+                let server = match server {
+                    Ok(s) => s,
+                    Err(e) => {
+                        rows.push(json!({"constructed_by": how, "constructed": false, "error": e.to_string()}));
+                        continue;
+                    }
+                };
+                let addr = server.server_addr().to_ip().unwrap();
+                let served = match TcpStream::connect(addr) {
+                    Ok(mut c) => {
+                        let _ = c.write_all(b"GET /t HTTP/1.1\r\nHost: t\r\nConnection: close\r\n\r\n");
+                        match server.recv_timeout(Duration::from_secs(10)) {
+                            Ok(Some(rq)) => {
+                                let _ = rq.respond(Response::from_string("x"));
+                                true
+                            }
+                            _ => false,
+                        }
+                    }
+                    Err(_) => false,
+                };
+                drop(server);
+                let t0 = Instant::now();
+                let mut gone = None;
+                while t0.elapsed() < Duration::from_secs(3) {
+                    if !listening(addr.port()) {
+                        gone = Some(t0.elapsed().as_millis() as u64);
+                        break;
+                    }
+                    std::thread::sleep(Duration::from_millis(10));
+                }
+                let refused = gone.is_some() && TcpStream::connect(addr).is_err();
+                rows.push(json!({"constructed_by": how, "constructed": true, "served": served, "listening_socket_gone_after_ms": gone, "connect_refused_after_drop": refused}));
+            }
+            out.insert("drop_by_construction".into(), json!(rows));
+        }
         {
             let path = std::env::temp_dir().join(format!("verif-realsock-{}-drop.sock", std::process::id()));
             let _ = std::fs::remove_file(&path);
@@ -607,6 +702,7 @@ mod real {
     }
 
     pub fn main() {
+        verif_harness::infra::install_discard_logger();
         if std::env::args().nth(1).as_deref() == Some("--pauses") {
             pauses(std::env::args().nth(2).and_then(|s| s.parse().ok()).unwrap_or(65));
             return;
